@@ -24,7 +24,7 @@
    Scope notes: geometric containment is for star-shaped outers (the generator's scene class),
    not arbitrary simple polygons; Way.Updates are not modelled here (C15). *)
 From Coq Require Import ZArith List Bool Permutation Lia.
-From Verif Require Import Geo.Model Geo.JoinProofs Geo.Conserve Geo.Closes Geo.Cut Geo.Orient Geo.Sources Geo.Holes Geo.Annotate Geo.Edges Geo.Rings Geo.GroupIdx Geo.Recover Geo.Contain Geo.Assign Geo.Truthful Geo.Build Geo.Collect Geo.Jordan Geo.BuildGeo Geo.Invalid C16.Spec C16.RayQ Geo.Tables C16.GenOk.
+From Verif Require Import Geo.Model Geo.JoinProofs Geo.Conserve Geo.Closes Geo.Cut Geo.Orient Geo.Sources Geo.Holes Geo.Annotate Geo.Edges Geo.Rings Geo.GroupIdx Geo.Recover Geo.Contain Geo.Assign Geo.Truthful Geo.Build Geo.Collect Geo.Jordan Geo.BuildGeo Geo.Invalid Geo.AnnotateMembers C16.Spec C16.RayQ Geo.Tables C16.GenOk.
 From VerifGen Require Import GenMputil.
 Import ListNotations.
 Open Scope Z_scope.
@@ -167,6 +167,41 @@ Theorem C16_orientation_annotation_truthful : forall members ways ros rhs os t,
       nth (idx s) os 0 = way_direction (sign (Orient.shoelace (ms_line c))) s.
 Proof. exact annotate_orientation_recovers. Qed.
 Print Assumptions C16_orientation_annotation_truthful.
+
+(* 5m. orientation_annotation_truthful at the level of relation MEMBERS, from hypotheses on the
+       arguments of annotate (members, ways - no intermediate value of the model): ds describes
+       every member ([amember_ok]: ignored, or a way of role outer / inner that is found and whose
+       annotated way nodes give the line l of >= 2 points); the lines as written in the data are
+       any cut of the rings.  Then EVERY such way member i ends up with d = nth i os 0 where its
+       way runs around one of its role's rings in direction d ([runs r d l]: every edge of l is
+       a forward step of r and d is r's winding, or every edge is a backward step and d is the
+       opposite) - whatever orientations the members carried before.  Corollary: the members as
+       annotate leaves them satisfy theorem 8's [mem_truthful], so annotate -> convert is closed. *)
+Theorem C16_orientation_annotation_members : forall members ways ds ros rhs os t,
+  NoDup (concat ros) -> Forall (fun r => (3 <= length r)%nat) ros ->
+  NoDup (concat rhs) -> Forall (fun r => (3 <= length r)%nat) rhs ->
+  (forall r, In r (ros ++ rhs) -> Orient.shoelace (Rings.close_ring r) <> 0) ->
+  Forall2 (amember_ok ways) members ds ->
+  is_cut_lines (map Rings.close_ring ros) (outer_lines ds) ->
+  is_cut_lines (map Rings.close_ring rhs) (inner_lines ds) ->
+  annotate_orientation members ways = Some (os, t) ->
+  forall i m ro l, nth_error members i = Some m -> nth_error ds i = Some (MPiece ro l) ->
+    exists r d, In r (rings_of_role ros rhs ro) /\ runs r d l /\ nth i os 0 = d.
+Proof. exact annotate_members_truthful. Qed.
+Print Assumptions C16_orientation_annotation_members.
+
+Theorem C16_annotated_members_mem_truthful : forall members ways ds ros rhs os t,
+  NoDup (concat ros) -> Forall (fun r => (3 <= length r)%nat) ros ->
+  NoDup (concat rhs) -> Forall (fun r => (3 <= length r)%nat) rhs ->
+  (forall r, In r (ros ++ rhs) -> Orient.shoelace (Rings.close_ring r) <> 0) ->
+  Forall2 (amember_ok ways) members ds ->
+  is_cut_lines (map Rings.close_ring ros) (outer_lines ds) ->
+  is_cut_lines (map Rings.close_ring rhs) (inner_lines ds) ->
+  annotate_orientation members ways = Some (os, t) ->
+  forall i m ro l, nth_error members i = Some m -> nth_error ds i = Some (MPiece ro l) ->
+    mem_truthful (rings_of_role ros rhs ro) (set_orient m (nth i os 0)) l.
+Proof. exact annotated_members_mem_truthful. Qed.
+Print Assumptions C16_annotated_members_mem_truthful.
 
 (* Group numbers segments by member position: after the two joins the indices are distinct and
    in range (hypotheses of the chain-level theorem below, discharged for every input) *)
@@ -658,4 +693,22 @@ Example ex11_on : add_to_multipolygon true ex11_mp [(50,50); (51,50); (50,51); (
   [[[(0,0); (4,0); (4,4)]; [(50,50); (51,50); (50,51); (50,50)]]; [[(10,10); (20,10); (20,20); (10,10)]]].
 Proof. vm_compute. reflexivity. Qed.
 Example ex11_off : add_to_multipolygon false ex11_mp [(50,50); (51,50); (50,51); (50,50)] = ex11_mp.
+Proof. vm_compute. reflexivity. Qed.
+
+(* non-vacuity of 5m: the ex8 relation with all way nodes annotated; stale orientations on input *)
+Definition ex8a_ways : list way :=
+  [mkWay 11 [mkWN 3 0 9 9; mkWN 2 0 9 1; mkWN 1 0 1 1];
+   mkWay 12 [mkWN 3 0 9 9; mkWN 4 0 1 9; mkWN 1 0 1 1];
+   mkWay 13 [mkWN 5 0 3 3; mkWN 6 0 3 5; mkWN 7 0 5 5; mkWN 5 0 3 3];
+   mkWay 14 [mkWN 1 0 1 1; mkWN 5 0 3 3]].
+Example ex8a_members_ok : Forall2 (amember_ok ex8a_ways) ex8_members ex8_descs.
+Proof.
+  constructor; [|constructor; [|constructor; [|constructor; [|constructor; [|constructor]]]]].
+  - split; [reflexivity|]. split; [reflexivity|]. split; [discriminate|]. split; [simpl; lia|]. eexists. split; reflexivity.
+  - left. reflexivity.
+  - split; [reflexivity|]. split; [reflexivity|]. split; [discriminate|]. split; [simpl; lia|]. eexists. split; reflexivity.
+  - right. reflexivity.
+  - split; [reflexivity|]. split; [reflexivity|]. split; [discriminate|]. split; [simpl; lia|]. eexists. split; reflexivity.
+Qed.
+Example ex8a_annotate : annotate_orientation ex8_members ex8a_ways = Some ([-1; 0; 1; 0; -1], false).
 Proof. vm_compute. reflexivity. Qed.
